@@ -420,6 +420,8 @@ func genHeld2(r *Rng, tn string, cw *CaseWriter) (Case, held2Stats) {
 		d := w.V[t].Dim()
 		if r.Intn(3) == 0 {
 			emit(Op{Op: "ItBegin", T: t})
+		} else if q, ok := vecAimFrom(r, func() VecObs { o, _ := w.observe(); return o[t] }()); ok && r.Bool() {
+			emit(Op{Op: "ItFrom", T: t, I: q}) // started ON a pending zero (round 5)
 		} else {
 			emit(Op{Op: "ItFrom", T: t, I: int64(r.Range(0, d-1))})
 		}
